@@ -369,3 +369,31 @@ def probe_grid(spec):
         o['prices_pass'] = False
         o['prices_error'] = repr(e)[:200]
     return o
+
+
+# ------------------------------------------------------------------ C02 / C20 / C13 / C16: independent reference formulation
+def probe_reference(spec):
+    """EAO's optimum next to the optimum of the independently written textbook LP (harness/ref.py), and EAO's dispatch
+    checked for feasibility in the reference model"""
+    import ref
+    o = probe_portfolio(dict(spec, opts=dict(spec.get('opts', {}), split=None)))
+    try:
+        lp, flows = ref.build(spec)
+        st, val, x = lp.solve()
+        o['ref'] = {'status': st, 'value': val, 'nvars': len(lp.lb), 'nrows': len(lp.rows)}
+    except Exception as e:
+        o['ref'] = {'status': 'rejected', 'error': repr(e)[:200]}
+        return o
+    if o.get('status') == 'ok' and o.get('solve') == 'optimal' and o.get('out') and st == 'optimal':
+        disp = {}
+        multi = len(o['nodes']) > 1
+        for a in o['assets']:
+            for n in a['nodes']:
+                col = a['name'] if not multi else '%s (%s)' % (a['name'], n)
+                if col in o['out']['dispatch']:
+                    disp[(a['name'], n)] = o['out']['dispatch'][col]
+        try:
+            o['ref']['eao_dispatch_in_reference'] = ref.check_dispatch(spec, disp)
+        except Exception as e:
+            o['ref']['eao_dispatch_in_reference'] = 'error: ' + repr(e)[:200]
+    return o
